@@ -472,6 +472,10 @@ func init() {
 	intrinsics["strings.ToLower"] = inStringsToLower
 	intrinsics["strings.HasPrefix"] = inStringsHasPrefix
 	intrinsics["strings.HasSuffix"] = inStringsHasSuffix
+	intrinsics["strings.Split"] = inStringsSplit
+	intrinsics["strings.Count"] = inStringsCount
+	intrinsics["strings.ToUpper"] = inStringsToUpper
+	intrinsics["bytes.Contains"] = inBytesContains
 }
 
 func (e *Engine) strByte(s *StrV, i int) *Term {
@@ -592,4 +596,45 @@ func inStringsHasPrefix(e *Engine, st *State, fn *ssa.Function, args []Value, si
 
 func inStringsHasSuffix(e *Engine, st *State, fn *ssa.Function, args []Value, site ssa.Instruction) []Outcome {
 	return one(st, e.hasAffix(args[0].(*StrV), args[1].(*StrV), true))
+}
+
+func inStringsSplit(e *Engine, st *State, fn *ssa.Function, args []Value, site ssa.Instruction) []Outcome {
+	s, ok1 := argString(args[0])
+	sep, ok2 := argString(args[1])
+	if !ok1 || !ok2 {
+		panic(unsupported("strings.Split on symbolic strings"))
+	}
+	return one(st, e.importValue(st, reflect.ValueOf(strings.Split(s, sep)), fn.Signature.Results().At(0).Type()))
+}
+
+func inStringsCount(e *Engine, st *State, fn *ssa.Function, args []Value, site ssa.Instruction) []Outcome {
+	s, ok1 := argString(args[0])
+	sep, ok2 := argString(args[1])
+	if !ok1 || !ok2 {
+		panic(unsupported("strings.Count on symbolic strings"))
+	}
+	return one(st, e.c64(uint64(strings.Count(s, sep))))
+}
+
+func inStringsToUpper(e *Engine, st *State, fn *ssa.Function, args []Value, site ssa.Instruction) []Outcome {
+	tm := e.tm
+	s := args[0].(*StrV)
+	if cs, ok := concreteString(s); ok {
+		return one(st, e.mkStr(strings.ToUpper(cs)))
+	}
+	n := e.strBoundOrFail(s)
+	v := make([]*Term, n)
+	for i := range v {
+		b := e.strByte(s, i)
+		lo := tm.And(tm.Ule(tm.BV('a', 8), b), tm.Ule(b, tm.BV('z', 8)))
+		v[i] = tm.Ite(lo, tm.Sub(b, tm.BV(32, 8)), b)
+	}
+	return one(st, &StrV{arr: &ArrVec{v}, off: e.c64(0), len: s.len, max: s.max})
+}
+
+func inBytesContains(e *Engine, st *State, fn *ssa.Function, args []Value, site ssa.Instruction) []Outcome {
+	a := e.sliceAsStr(st, args[0].(*SliceV))
+	b := e.sliceAsStr(st, args[1].(*SliceV))
+	idx := e.strIndex(a, b)
+	return one(st, e.tm.Ne(idx, e.tm.BV(^uint64(0), 64)))
 }
